@@ -1,6 +1,6 @@
 ---------------------------- MODULE MC_PubServer ----------------------------
 (* Model-checking wrapper for PubServer: concrete handles and URIs.        *)
-EXTENDS PubServer, PubNames
+EXTENDS PubServer, PubServerNames
 
 Deltas1 == SmallDeltas(1)
 Deltas2 == SmallDeltas(2)
